@@ -87,6 +87,34 @@ def f_undriven_reg(b, rng):
     return 'removed the r net of register %s (still read)' % n.dests[0].name
 
 
+def add_sync_mem(rng):
+    """a synchronous (block-RAM style) memory whose read address is a concat of bits of registers / inputs"""
+    blk = pyrtl.working_block()
+    srcs = sorted(blk.wirevector_subset((Input, pyrtl.Register)), key=lambda w: w.name)
+    if not srcs:
+        return False
+    m = pyrtl.MemBlock(4, 2, name='verif_sync', asynchronous=False)
+    hi = WireVector(1, 'verif_sa_hi')
+    hi <<= rng.choice(srcs)[0]
+    lo = WireVector(1, 'verif_sa_lo')
+    lo <<= rng.choice(srcs)[0]
+    o = Output(4, 'verif_sync_out')
+    o <<= m[pyrtl.concat(hi, lo)]
+    return True
+
+
+def f_undriven_sync_addr(b, rng):
+    """the driver of a wire in the address cone of a synchronous memory is removed"""
+    w = b.wirevector_by_name.get('verif_sa_lo')
+    if w is None:
+        return None
+    drv = [n for n in b.logic if n.dests and n.dests[0] is w]
+    if len(drv) != 1:
+        return None
+    b.logic.remove(drv[0])
+    return 'removed the only driver of %s, which feeds the address of a synchronous memory' % w.name
+
+
 def f_unconnected(b, rng):
     with pyrtl.set_working_block(b, no_sanity_check=True):
         w = WireVector(rng.randint(1, 8), 'verif_floating')
@@ -122,9 +150,27 @@ def f_arity(b, rng):
 
 
 def f_width(b, rng):
-    kind = rng.choice(['args', 'dest', 'muxsel', 'cmpdest'])
+    kind = rng.choice(['args', 'dest', 'muxsel', 'cmpdest', 'memdata', 'memaddr'])
     with pyrtl.set_working_block(b, no_sanity_check=True):
-        if kind == 'args':
+        if kind in ('memdata', 'memaddr'):
+            # a memory port whose data / address wire is narrower or wider than the memory's
+            cands = [n for n in _nets(b, '@m') if (kind == 'memaddr' or n.op == '@')]
+            if not cands:
+                return None
+            n = rng.choice(cands)
+            pos = 0 if kind == 'memaddr' else 1
+            old_w = n.args[pos]
+            delta = rng.choice([-1, 1]) if len(old_w) > 1 else 1
+            nw = WireVector(len(old_w) + delta, 'verif_memw')
+            if delta > 0:
+                b.logic.add(LogicNet('c', None, (old_w[0] if False else old_w, ) + (WireVector(1, 'verif_pad'),), (nw,)))
+                b.logic.add(LogicNet('s', (0,), (old_w,), (b.wirevector_by_name['verif_pad'],)))
+            else:
+                b.logic.add(LogicNet('s', tuple(range(len(old_w) - 1)), (old_w,), (nw,)))
+            args = list(n.args)
+            args[pos] = nw
+            new = LogicNet(n.op, n.op_param, tuple(args), n.dests)
+        elif kind == 'args':
             cands = _nets(b, '&|^+-*<>=n')
             if not cands:
                 return None
@@ -246,7 +292,7 @@ def f_comb_cycle(b, rng):
     return 'combinational cycle through %s' % n.dests[0].name
 
 
-FAULTS = [('two-drivers', f_two_drivers), ('undriven', f_undriven), ('undriven-register', f_undriven_reg),
+FAULTS = [('two-drivers', f_two_drivers), ('undriven', f_undriven), ('undriven-register', f_undriven_reg), ('undriven-sync-address', f_undriven_sync_addr),
           ('unconnected', f_unconnected),
           ('foreign-wire', f_foreign), ('arity', f_arity), ('bitwidth', f_width), ('op-param', f_param),
           ('input-const-dest', f_input_dest), ('output-arg', f_output_arg), ('dup-name', f_dup_name),
@@ -271,9 +317,11 @@ def main(ctx):
     nseeds = ctx.n(6, 32)
     good = bad_total = 0
     tie_cases = tie_bad = 0
-    for k in range(n):
+    for k in ctx.loop(n):
         rng = ctx.rng
         d = gen.rand_design(rng, profile=('small', 'med', 'limb')[k % 3], raw=False, nops=rng.randint(3, 14))
+        if k % 2 == 0 and add_sync_mem(rng):
+            ctx.count('sync-memory', 'added')
         desc = d.describe()
         ser = Ser(d.block)
         replay0 = {'kind': 'design', 'block': ser.data}
@@ -326,6 +374,9 @@ def main(ctx):
             verdicts = {'sanity_check': rejected_by(b2, lambda b: b.sanity_check())}
             for simcls in sims:
                 verdicts[simcls.__name__] = rejected_by(b2, construct(simcls))
+            if verdicts['sanity_check'].startswith('other:'):
+                ctx.violation('fault-wrong-exception:%s:sanity_check' % fname,
+                              'sanity_check raises %s (not PyrtlError/PyrtlInternalError) for a block with %s' % (verdicts['sanity_check'][6:], what), replay)
             if verdicts['sanity_check'] == 'accepted' and fname != 'comb-cycle':
                 ctx.violation('fault-accepted:%s:sanity_check' % fname, 'sanity_check accepts a block with %s' % what, replay)
             for simcls in sims:
@@ -334,7 +385,8 @@ def main(ctx):
                     ctx.violation('fault-simulated:%s:%s' % (fname, simcls.__name__),
                                   '%s silently simulates a block with %s' % (simcls.__name__, what), replay)
                 elif vv.startswith('other:'):
-                    ctx.count('rejected-with-non-pyrtl-exception', '%s:%s:%s' % (fname, simcls.__name__, vv))
+                    ctx.violation('fault-wrong-exception:%s:%s' % (fname, simcls.__name__),
+                                  '%s raises %s (not PyrtlError/PyrtlInternalError) for a block with %s' % (simcls.__name__, vv[6:], what), replay)
             mv = model_verdict(ctx, b2)
             tie_cases += 1
             real_rej = verdicts['sanity_check'] != 'accepted' or any(verdicts[s_.__name__] != 'accepted' for s_ in sims)
@@ -354,6 +406,6 @@ def main(ctx):
         ctx.extra['tie_only_examples'] = getattr(ctx, 'tie_only', [])[:3]
     ctx.oblige('property:faults rejected, API-built designs accepted and iterated in dependency order', not ctx.violations,
                '%d good designs, %d injected faults' % (good, bad_total))
-    return conclude(ctx, level='proof', rule='API-built designs x 12 fault classes injected at a random applicable site each x '
+    return conclude(ctx, level='proof', rule='API-built designs x 13 fault classes injected at a random applicable site each x '
                     '{sanity_check, Simulation, FastSimulation, CompiledSimulation}; iteration under native order and '
                     'pseudo-random tie-break seeds; distinct = (fault class or "good", net count, op set)')
